@@ -46,6 +46,11 @@ pub open spec fn keeps(w0: World, w1: World) -> bool {
 }
 
 
+/// C02 for one item: a done notification is sent only after the user's future resolved successfully
+pub open spec fn done_only_after_user_end(t: Seq<Ev>) -> bool {
+    forall|i: int| 0 <= i < t.len() && (#[trigger] t[i]) is DoneSend ==> exists|j: int| 0 <= j < i && t[j] == Ev::UserEnd
+}
+
 pub spec const READY: int = 0;
 pub spec const DONE: int = 1;
 
